@@ -338,6 +338,9 @@ class Engine:
         if not t and not f:
             raise PathEnd()
         if t and f:
+            if getattr(self, 'differential_mode', False):
+                # concrete inputs, yet both sides feasible: an abstract library model was reached (outside the comparable subset)
+                raise Unsupported('undetermined branch on concrete input (abstract model reached)')
             self.worklist_add.append(self.decisions + [False])
             d = True
         else:
